@@ -579,6 +579,10 @@ def wrapLine (unit : Text) (maxLen : Nat) (o : OutLine) : List Text :=
 def wrapLongLines (unit : Text) (maxLen : Nat) (ls : List OutLine) : List Text :=
   ls.flatMap (wrapLine unit maxLen)
 
+/-- Lines the post passes must not touch: skipped by alignment / wrapping (block comment, line comment,
+pragma, string lines) and without a type-colon index (which string lines in a VAR block may have). -/
+def OutLine.verbatim (o : OutLine) : Bool := o.skipAlign && o.colon.isNone
+
 /-! ## `format_document` -/
 
 /-- Pre-wrap lines (`output_lines` after the two alignment passes). -/
